@@ -39,7 +39,8 @@ def run(tier):
             continue
         rep.violation(v["clause"], v["site"], v["cond"], {"line": v["line"], "event": recs[v["line"] - 1]})
     rep.coverage["acceptor_mismatches_total"] = res["nviol"]
-    selftest(recs, wd)
+    if not rep.unknown_violations():
+        selftest(recs, wd)   # binding self-test (skipped when the run already has mismatches to report)
     return rep.finish(
         rule="clusters of 2..12 real DhtNetworkManagers on the in-memory hub (virtual time), seeded topologies (full mesh, star, line, "
              "random, bridged clusters), unresponsive peers, lying harness endpoints (unknown ids, requester, self, duplicates), delivery "
